@@ -1338,6 +1338,8 @@ def _make_xvm():
             self._isgen = {}
             g = self.mod._g
 
+            g.setdefault("object", lambda: object())      # a fresh sentinel
+
             def _has(o, n):
                 try:
                     self.getattr(o, n)
